@@ -1,4 +1,106 @@
-//! C04 — not built yet.
+//! C04 — every pseudo-random mask is fresh: no PRF input reused, no randomness merged.
+use crate::c06::map_coq;
+use crate::coqfmt::*;
+use crate::export::*;
+use crate::gen::*;
+use crate::mpcgen::*;
 use crate::out::Out;
-pub const HEADER: &str = "From CC Require Import Base.Prelude.";
-pub fn run(_tier: &str, _seed: u64, _out: &mut Out) {}
+use crate::progen::*;
+use crate::rng::Rng;
+use ciphercore_base::data_types::*;
+use ciphercore_base::evaluators::simple_evaluator::SimpleEvaluator;
+use ciphercore_base::graphs::*;
+use ciphercore_base::mpc::mpc_compiler::{compile_context, uniquify_prf_id, IOStatus};
+use ciphercore_base::optimizer::optimize::optimize_context;
+use serde_json::json;
+use std::collections::HashMap;
+
+pub const HEADER: &str = "From CC Require Import Base.Prelude Base.Scalar Base.Ty Base.Shape Graph.Value Graph.IR Graph.Eval Model.Opt Model.Uniquify.";
+
+fn is_fresh(op: &Operation) -> bool {
+    matches!(op, Operation::Random(_) | Operation::RandomPermutation(_) | Operation::CuckooToPermutation | Operation::DecomposeSwitchingMap(_) | Operation::PRF(_, _) | Operation::PermutationFromPRF(_, _))
+}
+fn iv_of(op: &Operation) -> Option<u64> {
+    match op { Operation::PRF(iv, _) | Operation::PermutationFromPRF(iv, _) => Some(*iv), _ => None }
+}
+
+pub fn run(tier: &str, seed: u64, out: &mut Out) {
+    let mut rng = Rng::new(seed ^ 0xC04);
+    let (n_opt, n_comp) = match tier { "thorough" => (800, 120), "search" => (2000, 200), _ => (120, 14) };
+    // ---- optimizer passes leave fresh nodes alone; uniquify renumbers 1..n ---------------------
+    for i in 0..n_opt {
+        let st = *rng.pick(&ALL_ST);
+        let ops = vec!["add", "mul", "constant", "tuple", "tupleget", "nop", "random", "random", "prf", "prf", "prf", "dup", "dup", "annot", "stack", "sum"];
+        let cfg = GenCfg { n_inputs: 1 + rng.below(2) as usize, n_ops: 4 + rng.below(12) as usize, scalar_types: vec![st, UINT64, BIT], ops, small: true };
+        let p = gen_program(&mut rng, &cfg);
+        let ops_desc: Vec<String> = p.g.get_nodes().iter().map(|n| op_name(&n.get_operation())).collect();
+        let desc = json!({"ops": ops_desc, "index": i});
+        let n_fresh = p.g.get_nodes().iter().filter(|n| is_fresh(&n.get_operation())).count();
+        out.stat(&format!("fresh_nodes:{}", std::cmp::min(n_fresh, 6)));
+        // uniquify: exact tie + oracle
+        let ctx = p.ctx.clone();
+        let u = observe(|| uniquify_prf_id(ctx));
+        if let Outcome::Ok(mc) = &u {
+            let ng = mc.get_context().get_main_graph().unwrap();
+            out.case("uniquify", format!("uniquify_graphs [{}]", nodes_coq(&p.g)), format!("[{}]", nodes_coq(&ng)), desc.clone(), n_fresh > 0);
+            let ivs: Vec<u64> = ng.get_nodes().iter().filter_map(|n| iv_of(&n.get_operation())).collect();
+            let expect: Vec<u64> = (1..=ivs.len() as u64).collect();
+            if ivs != expect { out.violation("uniquify-not-1-to-n", desc.clone(), format!("ivs {:?}", ivs)); } else { out.oracle_ok(); }
+            // then optimise the uniquified context: counters must stay distinct
+            let c2 = mc.get_context();
+            if let Outcome::Ok(oc) = observe(|| optimize_context(&c2, SimpleEvaluator::new(None)?)) {
+                let og = oc.get_context().get_main_graph().unwrap();
+                let mut seen = HashMap::new();
+                for n in og.get_nodes() { if let Some(iv) = iv_of(&n.get_operation()) { *seen.entry(iv).or_insert(0) += 1; } }
+                if seen.values().any(|c| *c > 1) { out.violation("duplicate-prf-counter-after-optimize", desc.clone(), format!("{:?}", seen)); } else { out.oracle_ok(); }
+                out.case("T:nodup_ivs_after_optimize", format!("nodup_ivs {}", nodes_coq(&og)), "true".into(), desc.clone(), n_fresh > 1);
+            }
+        } else { out.violation("uniquify-fails", desc.clone(), "uniquify_prf_id failed on an inlined context".into()); }
+        // optimizer on the raw program: fresh nodes are never folded, merged or duplicated
+        let ctx = p.ctx.clone();
+        if let Outcome::Ok(oc) = observe(|| optimize_context(&ctx, SimpleEvaluator::new(None)?)) {
+            let og = oc.get_context().get_main_graph().unwrap();
+            let mut image_count: HashMap<u64, u64> = HashMap::new();
+            for n in p.g.get_nodes() {
+                if !is_fresh(&n.get_operation()) { continue; }
+                if oc.mappings.contains_node(&n) {
+                    let img = oc.mappings.get_node(&n);
+                    if !is_fresh(&img.get_operation()) || format!("{:?}", img.get_operation()) != format!("{:?}", n.get_operation()) {
+                        out.violation("prf-folded-to-constant", desc.clone(), format!("old node {} {:?} became {:?}", n.get_id(), n.get_operation(), img.get_operation()));
+                    } else { out.oracle_ok(); }
+                    *image_count.entry(img.get_id()).or_insert(0) += 1;
+                }
+            }
+            if image_count.values().any(|c| *c > 1) { out.violation("fresh-nodes-merged", desc.clone(), format!("{:?}", image_count)); } else { out.oracle_ok(); }
+            let n_new = og.get_nodes().iter().filter(|n| is_fresh(&n.get_operation())).count();
+            if n_new > image_count.len() { out.violation("fresh-node-duplicated", desc.clone(), format!("{} fresh nodes in output, {} images", n_new, image_count.len())); } else { out.oracle_ok(); }
+            // model-level statement of the same on the exported pair (decided in Coq)
+            out.case("T:fresh_preserved", format!("fresh_check {} {} {}", nodes_coq(&p.g), nodes_coq(&og), map_coq(&p.g, &oc.mappings)), "true".into(), desc.clone(), n_fresh > 0);
+        }
+    }
+    // ---- whole pipeline: compile_context output has pairwise distinct counters ------------------
+    let modes = inline_modes();
+    for i in 0..n_comp {
+        let st = *rng.pick(&[UINT8, INT16, UINT32, INT32, UINT64, INT64, BIT]);
+        let ops: &[&'static str] = if st == BIT { &["add", "mul", "mul", "stack", "get", "reshape"] } else { &MPC_OPS };
+        let (ni, no) = (1 + rng.below(3) as usize, 2 + rng.below(5) as usize);
+        let p = gen_mpc_program(&mut rng, ops, ni, no, &[st]);
+        let owners = random_owners(p.input_types.len(), &mut rng);
+        let outs = rng.pick(&output_subsets()).clone();
+        let (mname, mode) = modes[i % 3].clone();
+        let ops_desc: Vec<String> = p.g.get_nodes().iter().map(|n| op_name(&n.get_operation())).collect();
+        let desc = json!({"ops": ops_desc, "owners": owners.iter().map(status_str).collect::<Vec<_>>(), "outputs": outs.iter().map(status_str).collect::<Vec<_>>(), "inline": mname, "st": scalar(st)});
+        let ctx = p.ctx.clone();
+        let (o2, u2) = (owners.clone(), outs.clone());
+        let r = observe(|| compile_context(ctx, o2, u2, mode, || SimpleEvaluator::new(None)));
+        out.stat(&format!("compile:{}", r.tag()));
+        if let Outcome::Ok(mc) = r {
+            let g = mc.get_context().get_main_graph().unwrap();
+            let ivs: Vec<u64> = g.get_nodes().iter().filter_map(|n| iv_of(&n.get_operation())).collect();
+            out.stat_n("compiled_prf_nodes", ivs.len() as u64);
+            let mut s = ivs.clone(); s.sort_unstable(); s.dedup();
+            if s.len() != ivs.len() { out.violation("duplicate-prf-counter-in-compiled-graph", desc.clone(), format!("{} PRF nodes, {} distinct counters", ivs.len(), s.len())); } else { out.oracle_ok(); }
+            out.case("T:nodup_ivs_compiled", format!("nodup_ivs {}", nodes_coq(&g)), "true".into(), desc.clone(), ivs.len() > 1);
+        }
+    }
+}
